@@ -30,7 +30,8 @@ StatNames == {"scans", "scans_baseline_last", "scans_baseline_ancestor", "scans_
               "stages_filtered", "stages_nothing_required", "stage_errors", "stores_compared", "supplies",
               "supply_transmissions", "transitions", "transition_problem_runs", "transition_missing",
               "transition_errors", "polls", "drift", "cases", "edits", "ops_accelerated_mode",
-              "scans_ancestor_switched", "scans_populated_after_big_ancestor_switch"}
+              "scans_ancestor_switched", "scans_populated_after_big_ancestor_switch",
+              "stage_batches_with_unopenable_files", "supply_batches_with_unopenable_files", "followup_scans"}
 ZeroStats == [n \in StatNames |-> 0]
 Bump(s, names) == [n \in StatNames |-> IF n \in names THEN s[n] + 1 ELSE s[n]]
 
@@ -157,6 +158,7 @@ Counters(s, r) ==
     \cup (IF Watching(s) /\ s.ep.acc THEN {"ops_accelerated_mode"} ELSE {})
     \cup (CASE r.ev = "Scan" ->
                  {"scans"}
+                 \cup (IF "followup" \in DOMAIN r THEN {"followup_scans"} ELSE {})
                  \cup (IF s.last = "set" THEN {"scans_baseline_last"}
                        ELSE IF r.ancnil THEN {"scans_baseline_ancestor_nil"} ELSE {"scans_baseline_ancestor"})
                  \cup (IF s.emptied THEN {"scans_after_empty_snapshot"} ELSE {})
@@ -176,7 +178,9 @@ Counters(s, r) ==
                  \cup (IF r.l.err = "" /\ ~Len0(r.l.paths) /\ Len(r.l.paths) < Len(r.req) THEN {"stages_filtered"} ELSE {})
                  \cup (IF r.l.err = "" /\ ~Len0(r.req) /\ Len0(r.l.paths) THEN {"stages_nothing_required"} ELSE {})
                  \cup (IF "store" \in DOMAIN r.l THEN {"stores_compared"} ELSE {})
+                 \cup (IF "broken" \in DOMAIN r /\ ~Len0(r.broken) THEN {"stage_batches_with_unopenable_files"} ELSE {})
             [] r.ev = "Supply" -> {"supplies"} \cup (IF ~Len0(r.l.tx) THEN {"supply_transmissions"} ELSE {})
+                 \cup (IF "broken" \in DOMAIN r /\ ~Len0(r.broken) THEN {"supply_batches_with_unopenable_files"} ELSE {})
             [] r.ev = "Trans" ->
                  {"transitions"}
                  \cup (IF r.l.err # "" THEN {"transition_errors"} ELSE {})
@@ -198,7 +202,7 @@ Step ==
      IN
      /\ fails' = Cap(fails
                      \o Chk(Want, l, "C21_TraceAccepted", wf)
-                     \o (IF wf /\ r.ev = "Edit" /\ "settle" \in DOMAIN r
+                     \o (IF wf /\ "settle" \in DOMAIN r
                          THEN Chk(Want, l, "C21_ResponseMatchesRequest", ~r.settle.hang /\ ~IsProtocolErr(r.settle.err))
                          ELSE <<>>)
                      \o (IF op THEN Chk(Want, l, "C21_SameAsLocal", SameAsLocal(st, r))
